@@ -1,0 +1,21 @@
+//go:build verif
+
+package token
+
+// Contracts for package token.
+
+//@ spec kwOK(m) = forallT(k, string, haskey(m, k) ==> m[k] != "/" && m[k] != "EOF" && m[k] != "")
+
+// The keyword table never maps an identifier to an operator or to EOF. Proved of the package
+// initialiser (init) and assumed as an axiom where the table is read (it is init-only, see C09).
+//@ axiom keywordsOK: kwOK(keywords)
+
+//@ func init
+//@ props C20
+//@ ensures[C20.keywords] kwOK(keywords)
+
+//@ func LookupIdentifier
+//@ props C20
+//@ uses keywordsOK
+//@ modifies nothing
+//@ ensures[C20.lookup] result != "/" && result != "EOF"
